@@ -178,8 +178,20 @@ Proof.
   rewrite E. reflexivity.
 Qed.
 
+(* the two replace() passes of escape_attr equal the one-pass serialisation rule *)
+Lemma escape_attr_spec v : escape_attr v = spec_escape v.
+Proof.
+  unfold escape_attr, spec_escape, replace_char. induction v as [|c v IH]; [reflexivity|].
+  cbn [flat_map]. destruct (N.eqb c 38) eqn:E38.
+  - rewrite flat_map_app, IH. reflexivity.
+  - cbn [flat_map app]. rewrite IH. destruct (N.eqb c 34); reflexivity.
+Qed.
+
 Lemma render_attr_print k v : [32%N] ++ render_attr k v = print_attr (k, v).
-Proof. unfold render_attr, print_attr. destruct v; simpl; rewrite ?app_nil_r; reflexivity. Qed.
+Proof.
+  unfold render_attr, print_attr. destruct v; simpl; rewrite ?app_nil_r; [|reflexivity].
+  rewrite escape_attr_spec. reflexivity.
+Qed.
 
 Lemma join_cons_sep (sep : str) p (l : list str) :
   l <> [] -> join sep (p :: l) = p ++ sep ++ join sep l.
@@ -494,3 +506,22 @@ Section Oracle.
     intro Hwf. unfold tokenize. rewrite (O_htmlparser_events hs Hwf). apply roundtrip_events. exact Hwf.
   Qed.
 End Oracle.
+
+(* ---------- history: every call starts from a fresh parser state ---------- *)
+
+Theorem session_fresh (feed : pstate -> str -> list event * pstate) :
+  (forall hs, wf_doc hs = true -> fst (feed fresh_pstate (print_doc hs)) = events_doc hs) ->
+  forall (calls : list (str * str)) (i : nat),
+    (* no call of the sequence raises, whatever was parsed before *)
+    (forall c, nth_error calls i = Some c -> exists t, nth_error (session feed calls) i = Some (Ok t))
+    (* a well-formed document round-trips at any position of the sequence *)
+    /\ (forall hs name, nth_error calls i = Some (print_doc hs, name) -> wf_doc hs = true ->
+         exists t, nth_error (session feed calls) i = Some (Ok t)
+                   /\ render_top (t_cells t) (t_outmost t) = Ok (print_doc hs)).
+Proof.
+  intros O calls i. unfold session. split.
+  - intros c Hc. rewrite (map_nth_error _ _ _ Hc). unfold tokenize_call.
+    destruct (build_total (snd c) (fst (feed fresh_pstate (fst c)))) as [t [Ht _]]. exists t. rewrite Ht. reflexivity.
+  - intros hs name Hc Hwf. rewrite (map_nth_error _ _ _ Hc). unfold tokenize_call. cbn [fst snd].
+    rewrite (O hs Hwf). destruct (roundtrip_events name hs Hwf) as [t [Ht Hr]]. exists t. rewrite Ht. auto.
+Qed.
